@@ -17,6 +17,15 @@ CLAIMED = {
         design="§8 C20", technique="Lean 4 proof (refinement to a finite map) + differential correspondence"),
 }
 
+CLAIMED["C08"] = dict(
+    text="Lean theorems for ALL sequence values and offsets (ring image of integer addition, never 0, diff exact within "
+         "half a ring, comparisons = order of absolute positions) and for EVERY insertion history and window width "
+         "(BitField refines the set of accepted absolute positions: duplicate flag, contains, bits < 2^n), plus exactness "
+         "of the (ack, ack_bits) predicate; tied to connection.py by differential runs on the real SeqNum/BitField/"
+         "_handle_ack_bits (thorough: exhaustive 65535-value table) and monitors.",
+    note=TRUST + "window theorems assume each inserted number within 32767 of the newest (the property's bound).",
+    design="§8 C08", technique="Lean 4 proof (omega ring arithmetic, testBit refinement to a set) + differential correspondence")
+
 REASON_PENDING = "model and theorems for this property are not built yet in this revision (planned, see DESIGN.md §13); not claimed until its check exists"
 
 def main():
